@@ -87,6 +87,7 @@ import copy
 import enum
 import functools
 import inspect
+import itertools
 import logging
 import os
 import pprint
@@ -2795,7 +2796,9 @@ def _iterate_flattened_values(value):
     return
 
   if isinstance(value, collections.abc.Mapping):
-    value = collections.abc.ValuesView(value)  # pytype: disable=wrong-arg-count
+    # Keys can hold references too (`{%name: 1}`); they are evaluated along with
+    # the values when the mapping is copied for a call.
+    value = itertools.chain(value.keys(), value.values())
 
   if isinstance(value, collections.abc.Iterable):
     for nested_value in value:
